@@ -200,7 +200,7 @@ pub fn c04_engine_b(case: u64, mut dec: Dec, opts: &RunOpts) -> RunOut {
             sig: format!("probe-exit-code|{c}|global-allocator"),
             detail: format!("the probe exited with status {c} after {} of {} rounds; its output: {text:?}", mapped.len(), scn.rounds),
         }),
-        End::Exited(_) => crate::c03::growth_violation(&windows, m_end, peak_live, scn.rounds).map(|v| Violation {
+        End::Exited(_) => crate::c03::growth_violation(&windows, m_end, peak_live, scn.rounds, false).map(|v| Violation {
             sig: format!("{}|global-allocator", v.sig),
             detail: format!(
                 "{} worker threads x {} iterations x {} blocks per round through tiny-std's GlobalDlMalloc (real threads under the ptrace scheduler), all joined and everything freed at each round end: {}",
